@@ -665,3 +665,32 @@ def rows_check(ctx, pkg, test, module, env=None, timeout=1200, workers=2, rows_n
     if crash_fail:
         fails.append(crash_fail)
     return rows, fails, agg
+
+
+def judge_rows(ctx, rows, module, cfg=None, chunk=6000, par=7, workers=2, timeout=1200):
+    """TLC `module` (row-validation pattern) over an in-memory list of rows; returns ([(invariant, index, row)], aggregate)."""
+    import concurrent.futures
+    lines = [json.dumps(r) + "\n" for r in rows]
+    chunks = [(k, lines[k:k + chunk]) for k in range(0, len(lines), chunk)]
+
+    def one(item):
+        k, ls = item
+        return k, len(ls), tlc(ctx, module, cfg=cfg, files={"rows.ndjson": "".join(ls)}, cont=True, workers=workers,
+                               timeout=timeout)
+    fails = []
+    agg = TLCResult()
+    agg.rc = 0
+    with concurrent.futures.ThreadPoolExecutor(max_workers=par) as ex:
+        for k, n, r in ex.map(one, chunks):
+            tlc_must(ctx, r, module)
+            if r.distinct != n:
+                raise Inconclusive("%s: TLC examined %d rows, chunk has %d" % (module, r.distinct, n))
+            agg.distinct += r.distinct
+            agg.generated += r.generated
+            for viol in r.violations:
+                try:
+                    i = int(viol["state"].get("i", "0"))
+                except ValueError:
+                    i = 0
+                fails.append((viol["name"], k + i, rows[k + i - 1] if 0 < i <= n else {}))
+    return fails, agg
